@@ -183,6 +183,12 @@ _once.params = {"actions"}
 _perm = Lit("permutation", "eq", cells=set(), op="==0", why="sorted actions equal 0..n-1")
 _perm.params = {"actions"}
 
+def _legs(env, name, k, table=None):
+    for l in (table or MASK)[env]:
+        if l.name == name:
+            l.legs = k
+
+
 CHECK = {
     "TSPEnv": [_perm],
     "ATSPEnv": [_perm],
@@ -351,3 +357,7 @@ SANITY = [
     Lit("can-return-to-depot", "cmp", big={"time_windows"}, small={"time_windows", "locs"}, strict=False, const=0),
 ]
 SANITY[-1].extra_small = {"durations", "service_time", "speed"}
+
+
+# number of travelled legs in a length constraint (the return leg of OP is already inside max_length, see _reset)
+_legs("OPEnv", "length", 1)
